@@ -40,8 +40,10 @@ def L2(fn, p=1, d=0, **kw):
 
 _cmp_q = dict(params={"depth": 2, "execs": 2, "max_inv": 3, "max_retries": 1, "handles": 3, "via_attempts": 0}, native=True, time_limit_s=900,
               note="every ordered composition (with repetition) of depth<=2 of {retry,breaker,fallback,cache,bulkhead,limiter,timeout}; 2 successive executions; <=3 invocations per execution; maxRetries<=1; results symbolic")
-_cmp_t = dict(params={"depth": 3, "execs": 2, "max_inv": 3, "max_retries": 1, "handles": 2}, native=True, time_limit_s=3000,
-              note="every ordered composition of depth<=3; 2 executions; <=3 invocations; maxRetries<=1")
+_cmp_t = dict(params={"depth": 3, "execs": 1, "max_inv": 3, "max_retries": 1, "handles": 2}, native=True, time_limit_s=9000,
+              note="every ordered composition (with repetition) of depth<=3; 1 execution; <=3 invocations; maxRetries<=1; 2 handle-condition kinds")
+_cmp_t2 = dict(params={"depth": 2, "execs": 2, "max_inv": 4, "max_retries": 2, "handles": 3}, native=True, time_limit_s=9000,
+               note="every ordered composition of depth<=2; 2 successive executions; <=4 invocations; maxRetries<=2; 3 handle-condition kinds")
 _ret_q = dict(params={"execs": 2, "max_inv": 4, "max_retries": 2, "unlimited": 1}, native=True, note="retry alone: maxRetries in {-1,0,1,2}, all handle/abort/ReturnLastFailure configs, scripts<=4 per execution, 2 successive executions")
 _ret_q2 = dict(params={"execs": 1, "max_inv": 3, "max_retries": 2, "unlimited": 1, "via_attempts": 1, "delay_fn": 1}, native=True, note="retry alone, configured through WithMaxAttempts or WithMaxRetries, with or without a delay function that records what it is shown; scripts<=3")
 _ret_t = dict(params={"execs": 2, "max_inv": 6, "max_retries": 4, "unlimited": 1, "via_attempts": 1, "delay_fn": 1}, native=True, time_limit_s=3000, note="retry alone: maxRetries in {-1..4}, scripts<=6, 2 successive executions")
@@ -50,14 +52,16 @@ _fb_q = dict(params={"execs": 2, "max_inv": 3, "max_retries": 1}, native=True, n
 _ca_q = dict(params={"execs": 2, "max_inv": 2, "max_retries": 1, "handles": 3}, native=True, note="cache x {none,retry,breaker,bulkhead,cache} inner; configured/context/non-string keys; symbolic prefilled content; 2 executions")
 
 PROPS["C01"] = {"quick": [Z("ZZ_C01_Compose", labels=["nesting:"], **_cmp_q), L2("ZZ_S07e_TimeoutOutside", 1, labels=["nesting:"], note="Timeout(T)(Bulkhead|Breaker(fn sleeping d)), T,d symbolic: the inner policy post-processes the function's outcome also when the timeout fires; P=1")],
-                "thorough": [Z("ZZ_C01_Compose", labels=["nesting:"], **_cmp_t), L2("ZZ_S07e_TimeoutOutside", 2, labels=["nesting:"], note="P=2")],
+                "thorough": [Z("ZZ_C01_Compose", labels=["nesting:"], **_cmp_t), Z("ZZ_C01_Compose", labels=["nesting:"], **_cmp_t2), L2("ZZ_S07e_TimeoutOutside", 3, labels=["nesting:"], note="P=3")],
                 "assumptions": ["hedge policy and firing timeouts/blocking waits are covered per policy (C06-C09), not inside the sequential composition", "unlimited retries only where every attempt reaches the function"]}
 PROPS["C02"] = {"quick": [Z("ZZ_C02_Retry", labels=["nesting:", "stats:"], **_ret_q), Z("ZZ_C02_Retry", labels=["nesting:", "stats:"], **_ret_q2), Z("ZZ_C02_RetryNested", labels=["nesting:"], **_retn)],
                 "thorough": [Z("ZZ_C02_Retry", labels=["nesting:", "stats:"], **_ret_t), Z("ZZ_C02_RetryNested", labels=["nesting:"], **_retn)],
                 "assumptions": ["abort-matching outcome on the exhausting attempt: the implementation's choice (ExceededError unless ReturnLastFailure) is accepted, the statement does not decide it"]}
 PROPS["C10"] = {"quick": [Z("ZZ_C10_Fallback", labels=["fallback:", "nesting:"], **_fb_q), L2("ZZ_S07c_TimeoutFallback", 1, labels=["fallback:"], note="fallback function running while an enclosing Timeout fires: keeps seeing the failed outcome, applied once; P=1")],
-                "thorough": [Z("ZZ_C10_Fallback", labels=["fallback:", "nesting:"], **_fb_q), L2("ZZ_S07c_TimeoutFallback", 2, labels=["fallback:"], note="P=2")]}
-PROPS["C11"] = {"quick": [Z("ZZ_C11_Cache", labels=["cache:", "nesting:"], **_ca_q)], "thorough": [Z("ZZ_C11_Cache", labels=["cache:", "nesting:"], **_ca_q)]}
+                "thorough": [Z("ZZ_C10_Fallback", labels=["fallback:", "nesting:"], params={"execs": 2, "max_inv": 4, "max_retries": 2}, native=True, time_limit_s=9000, note="fallback kinds x handle conditions x inner policy; 2 executions; <=4 invocations; maxRetries<=2"),
+                             L2("ZZ_S07c_TimeoutFallback", 3, labels=["fallback:"], note="P=3")]}
+PROPS["C11"] = {"quick": [Z("ZZ_C11_Cache", labels=["cache:", "nesting:"], **_ca_q)],
+                "thorough": [Z("ZZ_C11_Cache", labels=["cache:", "nesting:"], params={"execs": 3, "max_inv": 3, "max_retries": 1, "handles": 3}, native=True, time_limit_s=9000, note="3 executions; <=3 invocations; all key kinds; symbolic prefilled content")]}
 PROPS["C12"] = {
     "quick": [J("policy", "ZZ_H12a_IsFailure", native=True, params={"max_regs": 3}, note="every order/subset of <=3 handle registrations x 11 error shapes x symbolic results"),
               J("policy", "ZZ_H12b_IsAbortable", native=True, params={"max_regs": 3}, note="every order/subset of <=3 abort registrations x 11 error shapes")],
@@ -68,11 +72,11 @@ PROPS["C12"] = {
 _cmp_q1 = dict(params={"depth": 2, "execs": 1, "max_inv": 3, "max_retries": 1, "handles": 3}, native=True, time_limit_s=900,
                note="every ordered composition (with repetition) of depth<=2; 1 execution; <=3 invocations; maxRetries<=1; 3 handle-condition kinds")
 PROPS["C16"] = {"quick": [Z("ZZ_C01_Compose", labels=["events:"], **_cmp_q1), L2("ZZ_S06a_Bulkhead", 0, params={"max_m": 1}, labels=["events:"], note="OnFull exactly for ErrFull rejections (cancellation while waiting is not 'full'); P=0"),
-                          L2("ZZ_S07a_Timeout", 2, labels=["timeout: listener"], note="OnTimeoutExceeded exactly when the timeout result wins; P=2")], "thorough": [Z("ZZ_C01_Compose", labels=["events:"], **_cmp_t)],
+                          L2("ZZ_S07a_Timeout", 2, labels=["timeout: listener"], note="OnTimeoutExceeded exactly when the timeout result wins; P=2")], "thorough": [Z("ZZ_C01_Compose", labels=["events:"], **_cmp_t2), L2("ZZ_S06a_Bulkhead", 1, params={"max_m": 1}, labels=["events:"], note="OnFull; P=1"), L2("ZZ_S07a_Timeout", 3, labels=["timeout: listener"], note="P=3"), L2("ZZ_S09a_Hedge", 2, params={"max_hedges": 2}, labels=["events:"], note="OnHedge; P=2")],
                 "assumptions": ["sequential executions; hedge/timeout/bulkhead-wait events under concurrency are asserted in the Layer-2 scenarios"]}
 PROPS["C17"] = {"quick": [Z("ZZ_C01_Compose", labels=["stats:"], **_cmp_q1), L2("ZZ_S09a_Hedge", 1, params={"max_hedges": 1}, labels=["stats:"], note="overlapping hedge attempts: Attempts/Hedges/IsHedge inside each attempt; P=1"),
                           L2("ZZ_S17b_RetryHedgeStats", 1, labels=["stats:"], note="Retry(Hedge(fn)): Attempts = 1+Retries+Hedges in OnRetry/OnDone; P=1"),
-                          Z("ZZ_C02_Retry", labels=["stats:"], **_ret_q2)], "thorough": [Z("ZZ_C01_Compose", labels=["stats:"], **_cmp_t)],
+                          Z("ZZ_C02_Retry", labels=["stats:"], **_ret_q2)], "thorough": [Z("ZZ_C01_Compose", labels=["stats:"], **_cmp_t2), L2("ZZ_S09a_Hedge", 2, params={"max_hedges": 2}, labels=["stats:"], note="P=2"), L2("ZZ_S17b_RetryHedgeStats", 2, labels=["stats:"], note="P=2"), Z("ZZ_C02_Retry", labels=["stats:"], **_ret_t)],
                 "assumptions": ["start/elapsed time monotonicity follows from the virtual clock being non-decreasing; overlapping hedges are asserted in the hedge scenario (C09)"]}
 
 
@@ -87,7 +91,13 @@ PROPS["C05"] = {
     ],
     "assumptions": ["requested permits k >= 1", "stopwatch non-decreasing", "blocking acquire: interval/period 1 us, one permit per slot/period", "interval/period taken from the stated grid; bursty maxExecutions is a power of two (division of a symbolic deficit by 3, 5, 10 or 100 is not decided by any installed solver within 60 s)"],
 }
-PROPS["C05"]["thorough"] = PROPS["C05"]["quick"]
+PROPS["C05"]["thorough"] = [
+    J("ratelimiter", "ZZ_H05a_SmoothStep", solver=INT, native=True, time_limit_s=3000, note="inductive step; all 7 intervals; k<=1024; t<2^47; N<2^50"),
+    J("ratelimiter", "ZZ_H05b_BurstyStep", solver=INT, native=True, params={"bursty_cfgs": 5, "deficit_bits": 30}, time_limit_s=3000, note="inductive step; 5 (M,P) pairs; deficit>=-2^30; k<=1024; t<2^47"),
+    J("ratelimiter", "ZZ_H05c_KAtOnce", solver=INT, native=True, params={"bursty_cfgs": 5, "smooth_cfgs": 7}, time_limit_s=3000, note="k<=4 at once vs k singles; all grids"),
+    J("ratelimiter", "ZZ_H05g_PublicAPI", solver=INT, native=True, time_limit_s=3000, note="public permit API vs kernel twin"),
+    L2("ZZ_S05f_BlockingAcquire", 3, solver=INT, labels=["limiter:"], time_limit_s=3000, note="blocking acquire; P=3"),
+]
 
 PROPS["C03"] = {
     "quick": [
@@ -114,20 +124,24 @@ PROPS["C07"] = {
               L2("ZZ_S07c_TimeoutFallback", 1, note="Timeout(Fallback(fn)) and Fallback(Timeout(fn)), symbolic fn and fallback durations; P=1"),
               L2("ZZ_S07d_RetryTimeoutCtx", 1, note="Retry(Timeout(fn)) + caller cancel at symbolic instant (tie d1=T excluded): ErrExceeded only if the last attempt's Timeout fired; P=1")],
     "thorough": [L2("ZZ_S07a_Timeout", 3, note="P=3"), L2("ZZ_S07b_RetryTimeout", 2, time_limit_s=2000, note="P=2"),
-                 L2("ZZ_S07c_TimeoutFallback", 2, time_limit_s=2000, note="P=2")],
+                 L2("ZZ_S07c_TimeoutFallback", 2, time_limit_s=2000, note="P=2"), L2("ZZ_S07d_RetryTimeoutCtx", 2, time_limit_s=3000, note="P=2")],
     "labels": ["timeout:", "retry:", "fallback:", "cancel:"],
 }
 PROPS["C06"] = {
     "quick": [L2("ZZ_S06a_Bulkhead", 0, params={"max_m": 1}, labels=["bulkhead:"], note="m=1, 2 async executions + optional standalone holder + optional context cancel at symbolic instant; maxWait 0 or symbolic; P=0 (all time orders)"),
               L2("ZZ_S06a_Bulkhead", 1, params={"max_m": 1}, labels=["bulkhead:"], time_limit_s=900, note="same, P=1"),
               L2("ZZ_S06b_StandaloneWaiter", 1, labels=["bulkhead:"], note="full bulkhead(1): running holder, standalone AcquirePermit(ctx) waiter cancelled at symbolic instant, late third execution; P=1")],
-    "thorough": [L2("ZZ_S06a_Bulkhead", 1, params={"max_m": 2}, labels=["bulkhead:"], time_limit_s=3000, note="m<=2, 3 executions, P=1")],
+    "thorough": [L2("ZZ_S06a_Bulkhead", 1, params={"max_m": 2}, labels=["bulkhead:"], time_limit_s=9000, note="m<=2, 3 executions, P=1"),
+                 L2("ZZ_S06a_Bulkhead", 2, params={"max_m": 1}, labels=["bulkhead:"], time_limit_s=9000, note="m=1, 2 executions, P=2"),
+                 L2("ZZ_S06b_StandaloneWaiter", 2, labels=["bulkhead:"], time_limit_s=9000, note="standalone waiter; P=2")],
 }
 PROPS["C09"] = {
     "quick": [L2("ZZ_S09a_Hedge", 1, params={"max_hedges": 1}, labels=["hedge:", "stats:", "events:"], note="maxHedges=1, D,d0,d1 symbolic<2^30, cancel-on-any / cancel-on-first-only; P=1"),
               L2("ZZ_S09a_Hedge", 0, params={"max_hedges": 2}, labels=["hedge:", "stats:", "events:"], note="maxHedges<=2, P=0 (all time orders)"),
               L2("ZZ_S09b_HedgePlacements", 0, labels=["hedge:", "events:"], note="Retry(Hedge), Timeout(Hedge), Fallback(Hedge); P=0 (all time orders)")],
-    "thorough": [L2("ZZ_S09a_Hedge", 2, params={"max_hedges": 2}, labels=["hedge:", "stats:", "events:"], time_limit_s=3000, note="maxHedges<=2, P=2")],
+    "thorough": [L2("ZZ_S09a_Hedge", 2, params={"max_hedges": 2}, labels=["hedge:", "stats:", "events:"], time_limit_s=9000, note="maxHedges<=2, P=2"),
+                 L2("ZZ_S09a_Hedge", 3, params={"max_hedges": 1}, labels=["hedge:", "stats:", "events:"], time_limit_s=9000, note="maxHedges=1, P=3"),
+                 L2("ZZ_S09b_HedgePlacements", 2, labels=["hedge:", "events:"], time_limit_s=9000, note="placements; P=2")],
     "assumptions": ["when the hedge timer and an accepted result become ready at the same instant the coordinator's select may take either; an attempt launched in that tie is accepted (it must find itself cancelled)"],
 }
 PROPS["C08"] = {
@@ -148,7 +162,8 @@ PROPS["C04"] = {
 PROPS["C15"] = {
     "quick": [L2("ZZ_S15a_Async", 1, params={"readers": 2}, labels=["async:", "events:"], note="4 async entry points x {none, retry, fallback∘retry} x outcome scripts; 2 concurrent readers; sync≡async; P=1"),
               L2("ZZ_S08a_CancelRetry", 2, params={"src": 2}, labels=["cancel: ExecutionResult.Cancel"], note="Cancel before completion under retry ⇒ ErrExecutionCanceled; P=2")],
-    "thorough": [L2("ZZ_S15a_Async", 2, params={"readers": 2}, labels=["async:", "events:"], time_limit_s=3000, note="P=2")],
+    "thorough": [L2("ZZ_S15a_Async", 2, params={"readers": 2}, labels=["async:", "events:"], time_limit_s=9000, note="P=2"),
+                 L2("ZZ_S08a_CancelRetry", 3, params={"src": 2}, labels=["cancel: ExecutionResult.Cancel"], time_limit_s=9000, note="Cancel racing the retry loop; P=3")],
     "assumptions": ["IsDone is set one step before Done is closed; 'exactly from then on' is read up to that linearisation window"],
 }
 _c14 = [L2("ZZ_S07b_RetryTimeout", 1, labels=["concurrency:"], note="the execution handed to the user function is not modified by the timeout goroutine; P=1"),
@@ -159,7 +174,12 @@ _c14 = [L2("ZZ_S07b_RetryTimeout", 1, labels=["concurrency:"], note="the executi
         L2("ZZ_S09a_Hedge", 1, params={"max_hedges": 1}, labels=["concurrency:"], note="race/deadlock/panic verdicts of the hedge scenario"),
         L2("ZZ_S15a_Async", 1, params={"readers": 2}, labels=["concurrency:"], note="race/deadlock/panic verdicts of the async scenario"),
         L2("ZZ_S06a_Bulkhead", 0, params={"max_m": 1}, labels=["concurrency:"], note="race/deadlock/panic verdicts of the bulkhead scenario")]
-PROPS["C14"] = {"quick": _c14, "thorough": _c14,
+_c14t = [L2("ZZ_S07b_RetryTimeout", 2, labels=["concurrency:"], note="P=2"), L2("ZZ_S04b_HalfOpen", 2, params={"max_cap": 1}, labels=["breaker:"], note="P=2"),
+         L2("ZZ_S14a_SharedPolicies", 2, params={"execs": 2}, labels=["concurrency:"], time_limit_s=9000, note="P=2"), L2("ZZ_S14b_HedgeInner", 2, labels=["concurrency:"], note="P=2"),
+         L2("ZZ_S07a_Timeout", 3, labels=["concurrency:"], note="P=3"), L2("ZZ_S09a_Hedge", 2, params={"max_hedges": 2}, labels=["concurrency:"], time_limit_s=9000, note="P=2"),
+         L2("ZZ_S15a_Async", 2, params={"readers": 2}, labels=["concurrency:"], time_limit_s=9000, note="P=2"), L2("ZZ_S06a_Bulkhead", 1, params={"max_m": 1}, labels=["concurrency:"], time_limit_s=9000, note="P=1"),
+         L2("ZZ_S08a_CancelRetry", 2, labels=["concurrency:"], note="P=2"), L2("ZZ_S02d_ConcurrentBudgets", 2, labels=["concurrency:"], time_limit_s=9000, note="P=2")]
+PROPS["C14"] = {"quick": _c14, "thorough": _c14t,
                 "assumptions": ["bounded exploration, not a proof of race freedom; verdicts are happens-before based, so one explored schedule exposes a race that needs a rare schedule to manifest"]}
 _c19 = [L2("ZZ_S07a_Timeout", 1, labels=["leak:"], note="quiescence after Timeout executions"), L2("ZZ_S07b_RetryTimeout", 1, labels=["leak:"], note="after Retry(Timeout)"),
         L2("ZZ_S09a_Hedge", 1, params={"max_hedges": 1}, labels=["leak:"], note="after hedged executions"), L2("ZZ_S08a_CancelRetry", 1, labels=["leak:"], note="after cancelled executions"),
@@ -198,11 +218,12 @@ _c18 = [J("failsafehttp", "ZZ_H18a_RetryableStatus", note="status code symbolic 
         J("failsafehttp", "ZZ_H18b_RetryAfter", note="status symbolic x 9 Retry-After header shapes through the real DelayFunc"),
         J("failsafehttp", "ZZ_H18d_RetryAfterScheduled", note="500, then 429/503 with Retry-After n, then 200 through the real retry policy: scheduled wait >= n seconds, taken from the attempt that just failed"),
         J("internal/util", "ZZ_H18c_MergeContexts", preempt=1, race=True, labels=["adapter-ctx:"], note="caller ctx in {Background,TODO,cancellable,with value,with deadline(symbolic)} x execution ctx in {Background, cancellable}; who ends first; P=1")]
-PROPS["C18"] = {"quick": _c18, "thorough": _c18,
+_c18t = _c18[:-1] + [J("internal/util", "ZZ_H18c_MergeContexts", preempt=3, race=True, labels=["adapter-ctx:"], note="P=3")]
+PROPS["C18"] = {"quick": _c18, "thorough": _c18t,
                 "level_note": "PARTIAL: only the adapter kernels are decided (retryable-status predicate, Retry-After arithmetic, per-attempt context merging). Everything that needs a real transport (requests as received by a server, body replay, response body readable to the end, gRPC stack) is not applicable to solver-based checking here and is listed under not_applicable.",
                 "assumptions": ["error-message based classification (regexp on url.Error text, x509) is not encoded", "gRPC status.FromError is not encoded"]}
 PROPS["C19"]["quick"] = PROPS["C19"]["quick"] + [J("internal/util", "ZZ_H18c_MergeContexts", preempt=1, race=True, labels=["leak:"], note="context merger goroutine after the attempt returned")]
-PROPS["C19"]["thorough"] = PROPS["C19"]["quick"]
+PROPS["C19"]["thorough"] = [dict(j, preempt=2, time_limit_s=9000, note=(j.get("note", "") + "; P=2")) for j in PROPS["C19"]["quick"]]
 PROPS["C19"]["level_note"] = "PARTIAL: core library goroutines/timers and the HTTP/gRPC context merger are decided; release of pooled connections when a response is not closed is net/http.Transport behaviour and not applicable (listed under not_applicable)."
 
 DEFAULT_LEVEL_TEXT = ("Bounded symbolic model checking of the real code: the property's harness is executed symbolically from /repo's current "
